@@ -14,7 +14,7 @@ from . import c12_context  # noqa: E402,F401
 decl.default_props(["C01"])
 from . import c01_registry  # noqa: E402,F401
 decl.default_props([])
-for _m in ("c05_quantity", "c06_converters", "c14_groups", "c17_helpers", "c18_errors", "c08_names", "c15_qto",
+for _m in ("c02_chain", "c05_quantity", "c06_converters", "c14_groups", "c17_helpers", "c18_errors", "c08_names", "c15_qto",
            "c10_defs", "c07_eval", "c09_format", "c16_numpy", "c19_measurement", "c20_standards", "c13_caches"):
     try:
         __import__(f"contracts.{_m}")
@@ -40,19 +40,24 @@ P("C01", "other",
   "Lean-proved finite-sum theory), _get_dimensionality with its cache-coherence invariant, _get_conversion_factor and "
   "_convert of the plain registry (DimensionalityError is raised IF AND ONLY IF the two containers differ in some base "
   "dimension; otherwise the value is multiplied by the Lean-defined factor ratio) and Quantity.dimensionality are proved for "
-  "every well-formed registry. Bounded: the public gate (to/ito/convert through the non-multiplicative and context layers), "
+  "every well-formed registry; the public chain registry.convert -> Context._convert -> NonMultiplicative._convert -> plain "
+  "_convert and Quantity._convert_magnitude_not_inplace are verified against the same contract for multiplicative units with "
+  "no active context (behavioural subtyping of the overrides). Bounded: the same gate with offset units / active contexts, "
   "predicates, decorator and compatible-unit listings are compared with an independent Dim on all 164k ordered unit pairs of "
   "the default registry and on generated registries, cold and warm.",
   "Assumed contracts: get_name (decided under C08; A7: modelled as non-modifying), the registry's UnitsContainer factory, "
-  "Quantity.to (wrapper around convert). RegWF is evaluated concretely on the default registry by the stand-ins' independent "
+  "Quantity.to (convert + the Quantity constructor), _validate_and_extract on multiplicative-only containers, "
+  "to_units_container on a UnitsContainer. RegWF is evaluated concretely on the default registry by the stand-ins' independent "
   "reference, not proved of the definition parser.",
   MIXED + ": proved = dimensional expansion and its memo, error-iff-dimension-differs of the plain _convert; bounded = the same "
   "biconditional through the public API, agreement of is_compatible_with / check / @check / get_compatible_units.",
   standins=["standins.c01_compat", "standins.c02_warmcache", "standins.c01_check_kwargs"])
 P("C02", "other",
   "Deductive: _get_root_units_recurse (factor = product of scale**exponent along the reference chain; root-unit exponents), "
-  "_get_root_units with its memo, _get_conversion_factor (the factor is the ratio of the two root factors) and _convert are "
-  "proved against a Lean-checked finite-product theory; Scale/Offset converter maps and their inverses. Bounded: exactness, "
+  "_get_root_units with its memo, _get_conversion_factor (the factor is the ratio of the two root factors), _convert and the "
+  "chain above it (registry.convert, the Context / NonMultiplicative overrides for multiplicative units without active "
+  "context, Quantity._convert_magnitude_not_inplace) are proved against a Lean-checked finite-product theory; Scale/Offset "
+  "converter maps and their inverses. Bounded: exactness, "
   "numeric-type preservation, identity / inverse / path independence over all ~8000 same-dimension pairs of the default "
   "registry in Fraction, Decimal and float registries, cold and warm memo.",
   "Assumed: get_name; Converter.is_multiplicative; positivity of scales (one negative scale in the default registry, "
